@@ -248,6 +248,11 @@ fn consumed_of(r: &DecRes) -> Option<usize> {
     }
 }
 
+/// start / complete packet whose label type carries label bytes (3 or 6)
+fn lt_has_bytes(pkt: &[u8]) -> bool {
+    pkt.len() >= 2 && wire::lt_of_word(u16::from_be_bytes([pkt[0], pkt[1]])) < 2
+}
+
 fn recycle(d: &mut PlainDec, r: DecRes) {
     if let Ok(Ok((DecapStatus::CompletedPkt(b, _), _))) = r {
         let _ = d.provision_storage(b);
@@ -255,10 +260,10 @@ fn recycle(d: &mut PlainDec, r: DecRes) {
 }
 
 pub fn gens(cx: &Cx) -> Vec<crate::Gen> {
-    vec![crate::Gen { name: "frames", count: cx.n(12_000, 1_200_000), exhaustive: false }, crate::Gen { name: "tails", count: cx.n(20_000, 1_000_000), exhaustive: false }]
+    vec![crate::Gen { name: "frames", count: cx.n(12_000, 1_200_000), exhaustive: false }, crate::Gen { name: "tails", count: cx.n(20_000, 1_000_000), exhaustive: false }, crate::Gen { name: "memfaults", count: cx.n(2_000, 200_000), exhaustive: false }]
 }
 
-pub const RULE: &str = "frames: key -> a seeded traffic source (real encapsulator, up to 4 PDUs in flight on fragment ids distinct modulo the memory slots (4 slots; one run in eight 255 slots with ids 0, 255, 1, 2, where 0 and 255 share a slot), one new PDU in ten abandons a PDU in flight and takes over its fragment id with the same size and type but another label, PDUs of 0..6000 bytes, labels from a 7-label alphabet (incl. 3- and 6-byte labels sharing their leading bytes) plus explicit re-use, optional extensions, signalling protocol types 0x0081/0x0082 when the receiver uses the signalisation manager, through encap and through encap_ext with a chain ending in that final mandatory extension) fills 1..6 consecutive frames of 64..16200 bytes with up to 40 packets each (trains continue across frames, label memories reset at frame boundaries on both sides), followed by 0..64 zero bytes (one frame in ten: 4090..9000 zero bytes); some packets are then corrupted in a listed way (bad CRC trailer, another fragment id incl. ids mapping to the same memory slot) and receivers sometimes have too few or too small storage buffers (PDUs overflow at an intermediate / end fragment); a walker receiver advances by consumed lengths, a twin receiver gets each packet alone. tails: one packet (after its train prefix) followed by nothing / zeros / 0xFF / random bytes / another packet on identically prepared receivers. Every decap / peek call is an evaluation; non-trivial = a frame with at least 2 packets (or a tail variant set) fully compared; fingerprint = hash of the frame bytes.";
+pub const RULE: &str = "frames: key -> a seeded traffic source (real encapsulator, up to 4 PDUs in flight on fragment ids distinct modulo the memory slots (4 slots; one run in eight 255 slots with ids 0, 255, 1, 2, where 0 and 255 share a slot), one new PDU in ten abandons a PDU in flight and takes over its fragment id with the same size and type but another label, PDUs of 0..6000 bytes, labels from a 7-label alphabet (incl. 3- and 6-byte labels sharing their leading bytes) plus explicit re-use, optional extensions, signalling protocol types 0x0081/0x0082 when the receiver uses the signalisation manager, through encap and through encap_ext with a chain ending in that final mandatory extension) fills 1..6 consecutive frames of 64..16200 bytes with up to 40 packets each (trains continue across frames, label memories reset at frame boundaries on both sides), followed by 0..64 zero bytes (one frame in ten: 4090..9000 zero bytes); some packets are then corrupted in a listed way (bad CRC trailer, another fragment id incl. ids mapping to the same memory slot) and receivers sometimes have too few or too small storage buffers (PDUs overflow at an intermediate / end fragment); a walker receiver advances by consumed lengths, a twin receiver gets each packet alone. memfaults (C10): one frame walked by a twin and a walker that sit on the same fault-injecting memory wrapper, armed to fail the same memory operation (a random one of the undisturbed walk) with each documented error: outcome and consumed length of every packet must not depend on the bytes that follow it. In frames, the application also tops both free lists up to 'full' at random points, and (C19) peeks at another packet of the same label type between the peek and the decap of a packet. tails: one packet (after its train prefix) followed by nothing / zeros / 0xFF / random bytes / another packet on identically prepared receivers. Every decap / peek call is an evaluation; non-trivial = a frame with at least 2 packets (or a tail variant set) fully compared; fingerprint = hash of the frame bytes.";
 
 pub fn run_key(cx: &Cx, mask: u32, gen: &str, key: u64, rep: &mut Report) {
     let replay_s = format!("gen={} key={} seed={} profile={}", gen, key, cx.seed, cx.profile);
@@ -328,6 +333,28 @@ pub fn run_key(cx: &Cx, mask: u32, gen: &str, key: u64, rep: &mut Report) {
                         let cls0 = format!("{}{}:before-decap", inf.kind.name(), if inf.has_ext { "+ext" } else { "" });
                         check_peek(&twin, pkt, &frame[inf.off..], inf, &Err("not decapsulated yet".into()), &cls0, rep, &replay, &mut rng);
                     }
+                    if mask & M_C19 != 0 && lt_has_bytes(pkt) && matches!(inf.kind, Kind::Complete | Kind::First) {
+                        // between the peek and the decap of this packet, the application peeks at ANOTHER packet (same
+                        // label type, other label bytes): what decap then reports must still be this packet's label
+                        let mut decoy = pkt.to_vec();
+                        let lo = if inf.kind == Kind::First { 7 } else { 4 };
+                        if decoy.len() > lo + 2 {
+                            decoy[lo + 2] ^= 0x55;
+                            let _ = guard(|| twin.get_label_or_frag_id(&decoy));
+                            rep.count("peek.decoy-before-decap");
+                        }
+                    }
+                    if rng.chance(1, 30) {
+                        // the application tops both receivers' free lists up until the memory reports full
+                        for d in [&mut twin, &mut walker] {
+                            for _ in 0..16 {
+                                if d.provision_storage(vec![0u8; storage].into_boxed_slice()).is_err() {
+                                    break;
+                                }
+                            }
+                        }
+                        rep.count("frames.free-list-filled-up");
+                    }
                     let rt = dec_guard(&mut twin, pkt);
                     let cls = format!("{}{}{}", inf.kind.name(), if inf.has_ext { "+ext" } else { "" }, inf.corrupted.map(|c| format!("+{}", c)).unwrap_or_default());
                     // ... and after it
@@ -391,6 +418,77 @@ pub fn run_key(cx: &Cx, mask: u32, gen: &str, key: u64, rep: &mut Report) {
                     break;
                 }
             }
+        }
+        "memfaults" => {
+            // "the outcome for a packet does not depend on the bytes that follow it", also when the memory behind the
+            // trait refuses an operation: twin and walker sit on the same fault-injecting memory wrapper, armed to
+            // fail the same (i-th) memory operation with an error the trait documents for it
+            if mask & M_C10 == 0 {
+                return;
+            }
+            use crate::mon::{Fault, RecCrc};
+            let cap = rng.range(200, 6000);
+            let maxp = 2 + rng.below(12);
+            let (mut frame, infos) = src.fill(&mut rng, cap, maxp, rep);
+            if infos.len() < 2 {
+                return;
+            }
+            let padn = rng.below(20);
+            frame.extend(std::iter::repeat(0u8).take(padn));
+            let bufs = vec![storage; nbuf];
+            let mkm = || mon_dec(slots, storage, &bufs, table.clone(), RecCrc::off());
+            // number of memory operations of the undisturbed walk
+            let mut probe = mkm();
+            probe.memory.arm(None);
+            for inf in &infos {
+                let r = dec_guard(&mut probe, &frame[inf.off..inf.off + inf.len]);
+                if let Ok(Ok((DecapStatus::CompletedPkt(b, _), _))) = r {
+                    let _ = probe.provision_storage(b);
+                }
+            }
+            let nops = probe.memory.ops;
+            if nops == 0 {
+                return;
+            }
+            for _ in 0..6 {
+                let i = rng.below(nops);
+                for fault in [Fault::Underflow, Fault::UndefinedId, Fault::Corrupted, Fault::Overflow] {
+                    let mut twin = mkm();
+                    let mut walker = mkm();
+                    twin.memory.arm(Some((i, fault.clone())));
+                    walker.memory.arm(Some((i, fault.clone())));
+                    let mut off = 0usize;
+                    for (k, inf) in infos.iter().enumerate() {
+                        if off != inf.off {
+                            break;
+                        }
+                        let pkt = &frame[inf.off..inf.off + inf.len];
+                        rep.evals(2);
+                        let rt = dec_guard(&mut twin, pkt);
+                        let rw = dec_guard(&mut walker, &frame[off..]);
+                        let (ot, ow) = (format!("{} consumed {:?}", outcome_str(&rt), consumed_of(&rt)), format!("{} consumed {:?}", outcome_str(&rw), consumed_of(&rw)));
+                        if ot != ow {
+                            rep.violation("C10", format!("outcome-depends-on-following-bytes:memory-refusal:{:?}:{}", fault, inf.kind.name()), || format!("memory operation {} of {} fails with {:?}: packet {} of the frame ({}): alone -> {}, inside the frame (followed by {} bytes) -> {}", i, nops, fault, k, hex_short(pkt, 32), ot, frame.len() - inf.off - inf.len, ow), &replay);
+                            break;
+                        }
+                        let adv = consumed_of(&rw).unwrap_or(0);
+                        if let Ok(Ok((DecapStatus::CompletedPkt(b, _), _))) = rt {
+                            let _ = twin.provision_storage(b);
+                        }
+                        if let Ok(Ok((DecapStatus::CompletedPkt(b, _), _))) = rw {
+                            let _ = walker.provision_storage(b);
+                        }
+                        if adv != inf.len {
+                            break;
+                        }
+                        off += adv;
+                    }
+                    if walker.memory.fired {
+                        rep.count("memfaults.fault-fired");
+                    }
+                }
+            }
+            rep.nontrivial(mix(0xFA17, mix(key, fnv(&frame))));
         }
         "tails" => {
             // one frame's packets; pick a target packet; all receivers are fed the packets before it alone
